@@ -26,6 +26,8 @@ from typing import Any, Dict, List, Optional, Set
 from dst.c20.engine import run_seed  # noqa: F401
 
 KINDS = ["req", "dflt", "fact", "das", "noinit", "initvar", "initvar_d", "nested"]
+# default value by field kind (for exclude_defaults); required kinds have none
+DEFAULTS_BY_KIND = {"dflt": 0, "fact": 7, "das": None, "noinit": 5, "noinit_fact": 6, "kwonly": 0, "nested": None}
 
 
 # ------------------------------------------------------------------ spec generation
@@ -422,6 +424,18 @@ def child_run(plan: dict) -> dict:
                 out[a] = v
         return out, dc
 
+    def _upper_keys(d):
+        return {k.upper(): (_upper_keys(v) if isinstance(v, dict) else v) for k, v in d.items()}
+
+    def _drop(exp, inst, pred):
+        sh = inst.shape
+        out = dict(exp)
+        for n in sh.real:
+            a = sh.alias(n)
+            if a in out and pred(n, getattr(inst.obj, n)):
+                del out[a]
+        return out
+
     def check(inst: Inst, what: str):
         sh = inst.shape
         actual = set(fields_set(inst.obj))
@@ -447,6 +461,48 @@ def child_run(plan: dict) -> dict:
             if g != e:
                 raise Mismatch("serialize", {"after": what, "exclude_unset": label, "class": sh.name,
                                              "expected": e, "got": g, "dontcare": sorted(dc)})
+        # the same through the other ways of calling serialize (rotating, to keep runs cheap):
+        # untyped / Any, inside a list, with an aliaser, with exclude_none / exclude_defaults
+        variant = stats["checks"] % 6
+        exp, dc = expected_ser(inst, True)
+        if variant == 0:
+            got = apischema.serialize(inst.obj)
+            label = "untyped"
+        elif variant == 1:
+            from typing import Any as _Any
+
+            got = apischema.serialize(_Any, inst.obj)
+            label = "Any"
+        elif variant == 2:
+            from typing import List as _List
+
+            got = apischema.serialize(_List[cls], [inst.obj, inst.obj])
+            if not (isinstance(got, list) and len(got) == 2 and got[0] == got[1]):
+                raise Mismatch("serialize", {"after": what, "variant": "list", "got": repr(got)[:300]})
+            got = got[0]
+            label = "list"
+        elif variant == 3:
+            got = apischema.serialize(cls, inst.obj, aliaser=str.upper)
+            exp, dc = _upper_keys(exp), {k.upper() for k in dc}
+            label = "aliaser"
+        elif variant == 4:
+            got = apischema.serialize(cls, inst.obj, exclude_none=True)
+            exp = _drop(exp, inst, lambda n, v: v is None and sh.by_name[n]["kind"] in ("das", "nested"))
+            label = "exclude_none"
+        else:
+            got = apischema.serialize(cls, inst.obj, exclude_defaults=True)
+            exp = _drop(exp, inst, lambda n, v: sh.by_name[n]["kind"] in DEFAULTS_BY_KIND
+                        and v == DEFAULTS_BY_KIND[sh.by_name[n]["kind"]])
+            label = "exclude_defaults"
+        stats["checks"] += 1
+        if variant in (4, 5):
+            # nested objects are filtered by the same option: compare the top level only
+            dc = dc | {sh.alias(n) for n in sh.nested}
+        g = {k: v for k, v in got.items() if k not in dc}
+        e = {k: v for k, v in exp.items() if k not in dc}
+        if g != e:
+            raise Mismatch("serialize", {"after": what, "variant": label, "class": sh.name,
+                                         "expected": e, "got": g, "dontcare": sorted(dc)})
         stats["states"].add((sh.name, tuple(sorted(inst.set - ignore)), tuple(sorted(inst.dontcare))))
 
     try:
